@@ -102,11 +102,17 @@ pub fn expand_backslash_escapes(
             '\"' if matches!(mode, EscapeExpansionMode::AnsiCQuotes) => result.push(b'\"'),
             '?' if matches!(mode, EscapeExpansionMode::AnsiCQuotes) => result.push(b'?'),
             '0' => {
-                // Consume 0-3 valid octal chars
+                // Consume 0-3 valid octal chars (`echo`'s `\0nnn`); in ANSI-C quotes the
+                // leading zero counts as one of at most three digits.
+                let max_digits = if matches!(mode, EscapeExpansionMode::AnsiCQuotes) {
+                    2
+                } else {
+                    3
+                };
                 let mut taken_so_far = 0;
                 let mut octal_chars: String = it
                     .take_while_ref(|c| {
-                        if taken_so_far < 3 && matches!(*c, '0'..='7') {
+                        if taken_so_far < max_digits && matches!(*c, '0'..='7') {
                             taken_so_far += 1;
                             true
                         } else {
@@ -119,8 +125,10 @@ pub fn expand_backslash_escapes(
                     octal_chars.push('0');
                 }
 
-                let value = int_utils::parse::<u8>(octal_chars.as_str(), 8)?;
-                result.push(value);
+                // Values above 0o377 wrap around to a single byte.
+                let value = int_utils::parse::<u16>(octal_chars.as_str(), 8)?;
+                #[expect(clippy::cast_possible_truncation)]
+                result.push((value & 0xff) as u8);
             }
             'x' => {
                 // Consume 1-2 valid hex chars (or unlimited with braces in ANSI-C mode)
@@ -244,8 +252,10 @@ pub fn expand_backslash_escapes(
                     octal_chars.push(next_c);
                 }
 
-                let value = int_utils::parse::<u8>(octal_chars.as_str(), 8)?;
-                result.push(value);
+                // Values above 0o377 wrap around to a single byte.
+                let value = int_utils::parse::<u16>(octal_chars.as_str(), 8)?;
+                #[expect(clippy::cast_possible_truncation)]
+                result.push((value & 0xff) as u8);
             }
             unknown => {
                 // Not a valid escape sequence.
